@@ -1,15 +1,277 @@
-import Srctools.Model.C18
+import Srctools.Proofs.C18
 import Srctools.Gen.Fsys
-/-! # C18 — property theorems (work in progress) -/
+/-!
+# C18 — a constrained directory filesystem never reaches outside its root
+
+Property theorems only.  All statements are about the model `C18` (Model/C18.lean) over the path
+model `Path` (Model/Path.lean).  `C18_gen_ok` ties the shape of the containment test and the
+guarding of every OS call to what `/repo/src/srctools/filesys.py` contains *now*
+(Gen/Fsys.lean is regenerated on every run).  "Inside the root" is stated on component lists:
+`comps root <+: comps q`, with no `..` in what follows — for a tree without symlinks that is the
+location of the file.
+-/
 namespace C18
 open Path
 
-/-- The string-prefix test accepts a sibling whose name extends the root's name. -/
+/-- OBLIGATION on the current source: `_resolve_path` uses the separator-terminated test, the root
+is stored as `os.path.abspath(path)`, every OS call in `RawFileSystem` takes a `_resolve_path`
+result, and `RootEscapeError` is not a `FileNotFoundError`/`OSError` (a chain would swallow it). -/
+theorem C18_gen_ok :
+    Gen.Fsys.containKind = .sepTerminated ∧ Gen.Fsys.rootIsAbspath = true ∧
+    Gen.Fsys.osCalls.all (fun c => c.2.2) = true ∧ Gen.Fsys.osCalls.length ≥ 5 ∧
+    Gen.Fsys.escapeErrorBases = ["ValueError"] := by
+  decide +kernel
+
+/-- **Normal form of `normpath`.** For every string: `n ≤ 2` leading slashes (`n = 0` exactly for
+relative paths), then `k` components `..` (`k = 0` for absolute paths), then names none of which
+is empty, `.`, `..` or contains a slash — or the result is `"."` when all three are empty. -/
+theorem C18_normal (p : Str) :
+    ∃ (n k : Nat) (names : List Str),
+      n ≤ 2 ∧ (n = 0 ↔ isAbs p = false) ∧ (n ≠ 0 → k = 0) ∧
+      (∀ c ∈ names, c ≠ [] ∧ c ≠ dot ∧ c ≠ dotdot ∧ '/' ∉ c) ∧
+      normpath p = (if n = 0 ∧ k = 0 ∧ names = [] then dot
+                    else List.replicate n '/' ++ joinWith '/' (List.replicate k dotdot ++ names)) := by
+  obtain ⟨k, names, hs, hn, hk⟩ := normComps_spec p
+  refine ⟨initialSlashes p, k, names, initialSlashes_le p, initialSlashes_eq_zero p, ?_, hn, ?_⟩
+  · intro h0
+    apply hk
+    cases ha : isAbs p with
+    | true => rfl
+    | false => exact absurd ((initialSlashes_eq_zero p).mpr ha) h0
+  · rw [normpath_eq, hs]
+    by_cases h0 : initialSlashes p = 0 <;> simp [h0]
+
+/-- Component view of the normal form: unless the result is `"."`, the components of
+`normpath p` are `k` times `..` (none for absolute paths) followed by names that are neither
+`.` nor `..` (nor empty). -/
+theorem C18_normal_comps (p : Str) :
+    normpath p = dot ∨
+    ∃ (k : Nat) (names : List Str),
+      comps (normpath p) = List.replicate k dotdot ++ names ∧
+      (∀ c ∈ names, c ≠ [] ∧ c ≠ dot ∧ c ≠ dotdot) ∧ (isAbs p = true → k = 0) := by
+  obtain ⟨k, names, hs, hn, hk⟩ := normComps_spec p
+  rw [normpath_eq]
+  by_cases h : initialSlashes p = 0 ∧ normComps p = []
+  · left; simp [h]
+  · right
+    refine ⟨k, names, ?_, fun c hc => ⟨(hn c hc).1, (hn c hc).2.1, (hn c hc).2.2.1⟩, hk⟩
+    simp only [h, if_false]
+    rw [comps_replicate_sep, comps_joinWith, hs]
+    intro c hc
+    have := normComps_clean p c hc
+    exact ⟨this.1, this.2.2⟩
+
+example : normpath ['/', '/', 'a', '/', '.', '.', '/', '.', '.', '/', '/', 'b', '/', '.', '/', 'c', '/']
+    = ['/', '/', 'b', '/', 'c'] := by decide +kernel
+example : normpath ['a', '/', '.', '.', '/', '.', '.', '/', 'b'] = ['.', '.', '/', 'b'] := by decide +kernel
+
+/-- The root of a directory filesystem is absolute (given an absolute current directory). -/
+theorem C18_root_abs (cwd path : Str) (c : Bool) (h : isAbs cwd = true) :
+    isAbs (mkRaw cwd path c).root = true :=
+  isAbs_abspath cwd path h
+
+/-- **Containment.** With the separator-terminated test, an accepted path has the root's
+components as a prefix, and what follows contains no `..`, `.` or empty component: it names
+something located inside the root. -/
+theorem C18_contain (cwd : Str) (fs : RawFS) (p q : Str)
+    (hc : fs.constrain = true) (ha : isAbs fs.root = true)
+    (h : resolve .sepTerminated cwd fs p = .ok q) :
+    ∃ rest, comps q = comps fs.root ++ rest ∧ ∀ c ∈ rest, c ≠ [] ∧ c ≠ dot ∧ c ≠ dotdot := by
+  obtain ⟨hq, hin⟩ := resolve_ok h
+  obtain ⟨rest, hr⟩ := comps_prefix_of_inside fs.root q (hin hc)
+  refine ⟨rest, hr.symm, ?_⟩
+  have hj : isAbs (join2 fs.root p) = true := isAbs_join2 fs.root p ha
+  have hq' : q = normpath (join2 fs.root p) := by rw [hq]; simp [abspath, hj]
+  obtain ⟨h1, h2⟩ := comps_normpath_abs (join2 fs.root p) hj
+  intro c hcm
+  have : c ∈ comps q := by rw [← hr]; exact List.mem_append_right _ hcm
+  rw [hq', h1] at this
+  have := h2 c this
+  exact ⟨this.1, this.2.1, this.2.2.1⟩
+
+example : resolve .sepTerminated ['/'] ⟨['/','a','/','r'], true⟩ ['s','/','.','.','/','x']
+    = .ok ['/','a','/','r','/','x'] := by decide +kernel
+
+/-- The string-prefix test (the code before the fix) accepts a sibling whose name extends the
+root's name: a concrete escape.  The separator-terminated test rejects the same input. -/
 theorem C18_prefix_bug :
     resolve .stringPrefix ['/'] ⟨['/','a','/','r','o','o','t'], true⟩
         ['.','.','/','r','o','o','t','_','e','v','i','l','/','s']
       = .ok ['/','a','/','r','o','o','t','_','e','v','i','l','/','s']
-    ∧ ¬ (comps ['/','a','/','r','o','o','t'] <+: comps ['/','a','/','r','o','o','t','_','e','v','i','l','/','s']) := by
+    ∧ ¬ (comps ['/','a','/','r','o','o','t'] <+: comps ['/','a','/','r','o','o','t','_','e','v','i','l','/','s'])
+    ∧ resolve .sepTerminated ['/'] ⟨['/','a','/','r','o','o','t'], true⟩
+        ['.','.','/','r','o','o','t','_','e','v','i','l','/','s'] = .error .escape := by
   decide +kernel
+
+/-- **Existence test.** `name in fs` answering `True` refers to a file of the tree inside the root. -/
+theorem C18_exists (cwd : Str) (fs : RawFS) (t : Tree) (p : Str)
+    (hc : fs.constrain = true) (ha : isAbs fs.root = true)
+    (h : existsIn .sepTerminated cwd fs t p = .ok true) :
+    ∃ e ∈ t, comps fs.root <+: e.comps := by
+  unfold existsIn at h
+  cases hr : resolve .sepTerminated cwd fs p with
+  | error e => rw [hr] at h; cases h
+  | ok q =>
+    rw [hr] at h
+    simp only [bind, Except.bind, pure, Except.pure, Except.ok.injEq] at h
+    obtain ⟨e, he⟩ := Option.isSome_iff_exists.mp h
+    obtain ⟨hm, hcmp⟩ := fileAt_some he
+    obtain ⟨rest, hrest, _⟩ := C18_contain cwd fs p q hc ha hr
+    exact ⟨e, hm, by rw [hcmp, hrest]; exact List.prefix_append _ _⟩
+
+/-- **Open.** Whatever `open_bin`/`open_str` read is a file of the tree located inside the root
+(its components extend the root's, and nothing after the root is `..`). -/
+theorem C18_open (cwd : Str) (fs : RawFS) (t : Tree) (p : Str) (e : Ent)
+    (hc : fs.constrain = true) (ha : isAbs fs.root = true)
+    (h : openName .sepTerminated cwd fs t p = .ok e) :
+    e ∈ t ∧ ∃ rest, e.comps = comps fs.root ++ rest ∧ dotdot ∉ rest := by
+  unfold openName at h
+  cases hr : resolve .sepTerminated cwd fs p with
+  | error x => rw [hr] at h; cases h
+  | ok q =>
+    rw [hr] at h
+    simp only [bind, Except.bind] at h
+    cases hf : fileAt t q with
+    | none => rw [hf] at h; cases h
+    | some e' =>
+      rw [hf] at h
+      simp only [pure, Except.pure, Except.ok.injEq] at h
+      subst h
+      obtain ⟨hm, hcmp⟩ := fileAt_some hf
+      obtain ⟨rest, hrest, hclean⟩ := C18_contain cwd fs p q hc ha hr
+      exact ⟨hm, rest, by rw [hcmp, hrest], fun hd => (hclean _ hd).2.2 rfl⟩
+
+/-- **Lookup then open.** `fs[name].open_bin()` reads a file inside the root. -/
+theorem C18_get_open (cwd : Str) (fs : RawFS) (t : Tree) (p : Str) (e : Ent)
+    (hc : fs.constrain = true) (ha : isAbs fs.root = true)
+    (h : getOpen .sepTerminated cwd fs t p = .ok e) :
+    e ∈ t ∧ ∃ rest, e.comps = comps fs.root ++ rest ∧ dotdot ∉ rest := by
+  unfold getOpen at h
+  cases hg : getFile .sepTerminated cwd fs t p with
+  | error x => rw [hg] at h; cases h
+  | ok d =>
+    rw [hg] at h
+    exact C18_open cwd fs t d e hc ha h
+
+/-- **Walk.** Every file listed by `walk_folder` is a file of the tree located inside the root. -/
+theorem C18_walk (cwd : Str) (fs : RawFS) (t : Tree) (folder : Str) (l : List (Str × Ent))
+    (hc : fs.constrain = true) (ha : isAbs fs.root = true)
+    (h : walk .sepTerminated cwd fs t folder = .ok l) :
+    ∀ x ∈ l, x.2 ∈ t ∧ comps fs.root <+: x.2.comps := by
+  unfold walk at h
+  cases hr : resolve .sepTerminated cwd fs folder with
+  | error x => rw [hr] at h; cases h
+  | ok q =>
+    rw [hr] at h
+    simp only [bind, Except.bind, pure, Except.pure, Except.ok.injEq] at h
+    subst h
+    obtain ⟨rest, hrest, _⟩ := C18_contain cwd fs folder q hc ha hr
+    intro x hx
+    obtain ⟨e, he, rfl⟩ := List.mem_map.mp hx
+    obtain ⟨hm, hp⟩ := List.mem_filter.mp he
+    simp only [Bool.and_eq_true, List.isPrefixOf_iff_prefix] at hp
+    refine ⟨hm, List.IsPrefix.trans ?_ hp.1⟩
+    rw [hrest]; exact List.prefix_append _ _
+
+/-- **Chain lookup/open.** Through a chain of constrained directory filesystems (each with any
+sub-folder prefix), whatever is opened lies inside the root of one of the members. -/
+theorem C18_chain (cwd : Str) (t : Tree) (ms : List Member) (name : Str) (e : Ent)
+    (hms : ∀ m ∈ ms, m.fs.constrain = true ∧ isAbs m.fs.root = true)
+    (h : chainOpen .sepTerminated cwd t ms name = .ok e) :
+    e ∈ t ∧ ∃ m ∈ ms, comps m.fs.root <+: e.comps := by
+  unfold chainOpen at h
+  cases hg : chainGet .sepTerminated cwd t name ms with
+  | error x => rw [hg] at h; cases h
+  | ok r =>
+    obtain ⟨m, full, inner⟩ := r
+    rw [hg] at h
+    simp only [bind, Except.bind] at h
+    have hm : m ∈ ms := by
+      clear h
+      induction ms with
+      | nil => simp [chainGet, throw, throwThe, MonadExceptOf.throw] at hg
+      | cons m' ms ih =>
+        rw [chainGet] at hg
+        split at hg
+        · simp only [pure, Except.pure, Except.ok.injEq, Prod.mk.injEq] at hg
+          rw [← hg.1]; exact List.mem_cons_self
+        · exact List.mem_cons_of_mem _ (ih (fun x hx => hms x (List.mem_cons_of_mem _ hx)) hg)
+        · simp [throw, throwThe, MonadExceptOf.throw] at hg
+    obtain ⟨h1, rest, h2, _⟩ := C18_open cwd m.fs t inner e (hms m hm).1 (hms m hm).2 h
+    exact ⟨h1, m, hm, by rw [h2]; exact List.prefix_append _ _⟩
+
+/-- **Chain walk.** Every file a chain walk lists and that can be opened lies inside the root of
+one of the members. -/
+theorem C18_chain_walk (cwd : Str) (t : Tree) (ms : List Member) (folder : Str)
+    (l : List (Str × Except Err Ent))
+    (hms : ∀ m ∈ ms, m.fs.constrain = true ∧ isAbs m.fs.root = true)
+    (h : chainWalkRepeat .sepTerminated cwd t folder ms = .ok l) :
+    ∀ x ∈ l, ∀ e, x.2 = .ok e → e ∈ t ∧ ∃ m ∈ ms, comps m.fs.root <+: e.comps := by
+  induction ms generalizing l with
+  | nil =>
+    simp only [chainWalkRepeat, pure, Except.pure, Except.ok.injEq] at h
+    subst h; intro x hx; cases hx
+  | cons m ms ih =>
+    rw [chainWalkRepeat] at h
+    cases hw : walk .sepTerminated cwd m.fs t (replaceBS (join2 m.pfx folder)) with
+    | error x => rw [hw] at h; cases h
+    | ok fl =>
+      rw [hw] at h
+      simp only [bind, Except.bind] at h
+      cases hrest : chainWalkRepeat .sepTerminated cwd t folder ms with
+      | error x => rw [hrest] at h; cases h
+      | ok rest =>
+        rw [hrest] at h
+        simp only [pure, Except.pure, Except.ok.injEq] at h
+        subst h
+        intro x hx e hxe
+        rcases List.mem_append.mp hx with hx | hx
+        · obtain ⟨y, _, rfl⟩ := List.mem_map.mp hx
+          simp only at hxe
+          have hm := hms m List.mem_cons_self
+          obtain ⟨h1, r, h2, _⟩ := C18_open cwd m.fs t y.1 e hm.1 hm.2 hxe
+          exact ⟨h1, m, List.mem_cons_self, by rw [h2]; exact List.prefix_append _ _⟩
+        · obtain ⟨h1, m', hm', h2⟩ :=
+            ih rest (fun x hx => hms x (List.mem_cons_of_mem _ hx)) hrest x hx e hxe
+          exact ⟨h1, m', List.mem_cons_of_mem _ hm', h2⟩
+
+/-- Non-vacuity: a chain with a sub-folder prefix finds a file, and rejects an escaping name. -/
+example :
+    let fs : RawFS := ⟨['/','r'], true⟩
+    let t : Tree := [⟨[['r'], ['s'], ['f']], 7⟩, ⟨[['r','_','e']], 9⟩]
+    (chainOpen .sepTerminated ['/'] t [⟨fs, ['s']⟩] ['f']).map (·.id) = .ok 7
+    ∧ (chainOpen .sepTerminated ['/'] t [⟨fs, ['s']⟩] ['.','.','/','.','.','/','r','_','e']).map (·.id) = .error .escape
+    ∧ (chainOpen .stringPrefix ['/'] t [⟨fs, ['s']⟩] ['.','.','/','.','.','/','r','_','e']).map (·.id) = .ok 9 := by
+  decide +kernel
+
+/-- **`unify_path`.** An accepted pack path is relative (no leading slash), does not contain the
+substring `../`, and hence `..` can only be its *last* component: joined to any root it never
+names a file outside that root (a path ending in `..` names a directory). -/
+theorem C18_unify (fold : Char → List Char) (p q : Str) (h : unifyPath fold p = some q) :
+    isAbs q = false ∧ hasInfix ['.', '.', '/'] q = false ∧
+    ∀ pre c post, splitOn '/' q ≠ pre ++ dotdot :: c :: post := by
+  unfold unifyPath at h
+  simp only at h
+  split at h
+  · cases h
+  · rename_i hi
+    simp only [Bool.not_eq_true] at hi
+    simp only [Option.some.injEq] at h
+    subst h
+    have h2 := hasInfix_dropWhile (· == '/') _ hi
+    refine ⟨?_, h2, no_inner_dotdot _ h2⟩
+    have := List.head?_dropWhile_not (· == '/') (replaceBS (foldStr fold (normpath p)))
+    unfold isAbs
+    cases hh : (List.dropWhile (· == '/') (replaceBS (foldStr fold (normpath p)))).head? with
+    | none => simp
+    | some x =>
+      rw [hh] at this
+      simp only [beq_eq_false_iff_ne, ne_eq] at this
+      simp [this]
+
+/-- `..` as the last component does get through (`unify_path("a\\..")` is `"a/.."`, a directory). -/
+example : unifyPath (fun c => [c]) ['a', '\\', '.', '.'] = some ['a', '/', '.', '.'] := by decide +kernel
+example : unifyPath (fun c => [c]) ['.', '.', '\\', 'x'] = none := by decide +kernel
+example : unifyPath (fun c => [c]) ['/', 'a', '/', '.', '/', 'b'] = some ['a', '/', 'b'] := by decide +kernel
 
 end C18
